@@ -477,7 +477,8 @@ def xcheck(formulas, budget=3, tlimit=15):
     text = smt2([f for f in formulas if not z3.is_true(f)]) + '\n(check-sat)\n'
     if '(check-sat)' in text[:-14]:
         text = text[:-13]
-    fd, path = tempfile.mkstemp(suffix='.smt2', dir=os.environ.get('SYMX_TMP') or None)
+    os.makedirs(D.RUN_DIR, exist_ok=True)
+    fd, path = tempfile.mkstemp(suffix='.smt2', dir=D.RUN_DIR)
     os.write(fd, text.encode())
     os.close(fd)
     out = {}
